@@ -266,6 +266,12 @@ func (e *Executor) runOnService(ctx context.Context, isRootPlan bool, service st
 }
 
 func (pathTargets *pathSubqueryMetadata) extractKeys(node interface{}, path []PathStep) error {
+	// A nullable object (or list entry) on the path is null: there is no
+	// object to fetch more fields for.
+	if node == nil {
+		return nil
+	}
+
 	// Extract key for every element in the slice
 	if slice, ok := node.([]interface{}); ok {
 		for i, elem := range slice {
